@@ -303,7 +303,8 @@ def vector_call(case, ctx):
         one = float(FP(sm, sS).pf_norm_load(lm, sL))
         if abs(z) > ZMAX:       # broadcast forms can leave the quantifier's range of probabilities: only the bounds and the scalar call
             ctx.label("element_outside_1e-12_range")
-            if not (0.0 <= got[i] <= 1.0) or abs(got[i] - one) > 16 * EPS * one:
+            # one ulp in z changes Phi(z) by about z^2 ulps in the far tail: vector and scalar evaluation may differ by that
+            if not (0.0 <= got[i] <= 1.0) or abs(got[i] - one) > (16 + 8 * z * z) * EPS * one:
                 raise Violation("vectorised pf_norm_load (%s), element %d of %d: %r, scalar call %r (z = %.4g)" % (form, i, n, float(got[i]), one, z),
                                 bucket="vector:norm_far:" + form)
             continue
